@@ -184,7 +184,7 @@ Local Open Scope string_scope.
 Definition framed_always : list bytes := map tx
   ["Pair"; "Left"; "Right"; "Some"; "pair"; "or"; "option"; "map"; "big_map"; "list"; "set";
    "contract"; "lambda"; "ticket"; "sapling_state"; "sapling_transaction";
-   "sapling_transaction_deprecated"].
+   "sapling_transaction_deprecated"; "constant"; "Lambda_rec"; "Ticket"].
 (* parenthesised in argument position when annotated *)
 Definition framed_if_annotated : list bytes := map tx
   ["key"; "unit"; "signature"; "operation"; "int"; "nat"; "string"; "bytes"; "mutez"; "bool";
@@ -408,7 +408,8 @@ Definition fmt_tokens (e : node) : list token := fmt_root (to_pnode e).
 (* The domain of the round trip                                                                *)
 (* ------------------------------------------------------------------------------------------ *)
 (* an argument that is a primitive application with annotations or arguments must be one the
-   formatter parenthesises (every Michelson type, and Pair/Left/Right/Some, are) *)
+   formatter parenthesises (every Michelson type, Pair/Left/Right/Some/Lambda_rec/Ticket and
+   constant are) *)
 Definition arg_framed (p : pnode) : bool :=
   match p with
   | PPrim n annots args => negb (nonempty annots || nonempty args) || is_framed n (nonempty annots)
